@@ -1,6 +1,7 @@
 package props
 
 import (
+	"context"
 	"encoding/base64"
 	"encoding/hex"
 	"fmt"
@@ -13,6 +14,12 @@ import (
 	envoy "github.com/envoyproxy/go-control-plane/envoy/service/auth/v3"
 	"google.golang.org/protobuf/encoding/protojson"
 
+	configv1 "github.com/istio-ecosystem/authservice/config/gen/go/v1"
+	mockv1 "github.com/istio-ecosystem/authservice/config/gen/go/v1/mock"
+	oidcv1 "github.com/istio-ecosystem/authservice/config/gen/go/v1/oidc"
+	"github.com/istio-ecosystem/authservice/internal"
+	"github.com/istio-ecosystem/authservice/internal/oidc"
+	"github.com/istio-ecosystem/authservice/internal/server"
 	"github.com/istio-ecosystem/authservice/verif/sim"
 )
 
@@ -257,6 +264,142 @@ func c14Prop(c *sim.Case) {
 }
 
 // selfTest: a planted leak must be detected, otherwise the scanner is broken (infrastructure error).
+// c14Chains: two chains behind one assembled filter whose OIDC filters use the SAME provider and client id but differ
+// in what they forward (a: ID token and access token, b: ID token only), b optionally followed by a mock filter that
+// denies. What an earlier filter of a chain put on its OK must not reach the browser when a later filter denies, and
+// an OK adds exactly what the filter that judged it is configured to add.
+func c14Chains(c *sim.Case) {
+	order := sim.Pick(c, "order", 16) // sharding draw
+	store := []string{"memory", "redis"}[order%2]
+	trailingDeny := (order/2)%2 == 1
+	bFirst := (order/4)%2 == 1
+	idle := []uint32{0, 600}[(order/8)%2]
+	if store == "redis" {
+		stop := sim.RealTimeRedis()
+		defer stop()
+	}
+	idp := sim.NewIdP("client-shared", "ZqSECRET-shared", time.Now)
+	defer idp.Close()
+	mr, _ := sim.Redis()
+	mk := func(name string, at bool) *oidcv1.OIDCConfig {
+		cfg := &oidcv1.OIDCConfig{
+			AuthorizationUri: idp.AuthURL(), TokenUri: idp.TokenURL(), CallbackUri: "https://app.test/cb-" + name,
+			JwksConfig: &oidcv1.OIDCConfig_Jwks{Jwks: sim.JWKS(idp.Keys)}, ClientId: "client-shared",
+			ClientSecretConfig: &oidcv1.OIDCConfig_ClientSecret{ClientSecret: "ZqSECRET-shared"}, Scopes: []string{"openid"},
+			CookieNamePrefix: name, IdToken: &oidcv1.TokenConfig{Header: "authorization", Preamble: "Bearer"}, IdleSessionTimeout: idle,
+		}
+		if at {
+			cfg.AccessToken = &oidcv1.TokenConfig{Header: "x-access-token"}
+		}
+		if store == "redis" {
+			cfg.RedisSessionStoreConfig = &oidcv1.RedisConfig{ServerUri: "redis://" + mr.Addr()}
+		}
+		return cfg
+	}
+	cfgs := map[string]*oidcv1.OIDCConfig{"a": mk("a", true), "b": mk("b", false)}
+	full := &configv1.Config{}
+	for _, n := range []string{"a", "b"} {
+		fs := []*configv1.Filter{{Type: &configv1.Filter_Oidc{Oidc: cfgs[n]}}}
+		if n == "b" && trailingDeny {
+			fs = append(fs, &configv1.Filter{Type: &configv1.Filter_Mock{Mock: &mockv1.MockConfig{Allow: false}}})
+		}
+		full.Chains = append(full.Chains, &configv1.FilterChain{Name: n, Match: &configv1.Match{Header: "x-tenant", Criteria: &configv1.Match_Equality{Equality: n}}, Filters: fs})
+	}
+	ctx, cancel := context.WithCancel(context.Background())
+	defer cancel()
+	shell, fill := sim.LateConfig(full)
+	tlsPool := internal.NewTLSConfigPool(ctx)
+	fac := oidc.NewSessionStoreFactory(shell)
+	filter := server.NewExtAuthZFilter(shell, tlsPool, oidc.NewJWKSProvider(shell, tlsPool), fac)
+	fill()
+	if err := fac.PreRun(); err != nil {
+		panic(err)
+	}
+	m := &c14Mon{markers: map[string]marker{}}
+	m.add("client-secret", "ZqSECRET-shared")
+	jar := map[string]string{}
+	send := func(what, tenant, path string) *sim.Resp {
+		h := map[string]string{"x-tenant": tenant}
+		var cs []string
+		for _, n := range []string{"a", "b"} {
+			if v := jar[n]; v != "" {
+				cs = append(cs, "__Host-"+n+"-authservice-session-id-cookie="+v)
+			}
+		}
+		if len(cs) > 0 {
+			h["cookie"] = strings.Join(cs, "; ")
+		}
+		r := &sim.Resp{}
+		resp, err := filter.Check(context.Background(), sim.Req{Scheme: "https", Host: "app.test", Path: path, Headers: h}.Envoy())
+		r.Err = err
+		sim.ParseResp(r, resp)
+		for _, tc := range idp.Calls(0) {
+			m.add("refresh-token", tc.NewRefresh)
+			m.add("access-token", tc.AccessToken)
+			m.addID(tc.IDToken)
+			m.add("pkce-verifier", tc.Verifier)
+		}
+		c.Logf("%s: tenant %s %s -> %v", what, tenant, short(path, 50), r)
+		if kind, msg := m.scan(nil, nil, r.Raw); kind != "" {
+			where := "denial"
+			if r.OK {
+				where = "ok"
+			} else if r.IsRedirect() {
+				where = "redirect"
+			}
+			c.Violation("leak:"+kind+":"+where+":chains", "%s: %s", what, msg)
+		}
+		for _, sc := range r.SetCookies() {
+			if !sc.Expired() && sc.Value != "" {
+				jar[tenant] = sc.Value
+			}
+		}
+		if r.OK {
+			allowed := map[string]bool{"authorization": true}
+			if cfgs[tenant].GetAccessToken() != nil {
+				allowed["x-access-token"] = true
+			}
+			for _, hv := range r.Headers {
+				if !allowed[strings.ToLower(hv.K)] {
+					c.Violation("ok-adds-more-than-token-headers", "%s: the OK of chain %s adds upstream header %q, which its filter is not configured to add", what, tenant, hv.K)
+				}
+			}
+		}
+		return r
+	}
+	login := func(tenant string) {
+		r := send("first request", tenant, "/app")
+		cb, _, err := idp.Authorize(r.Location(), "alice")
+		if err != nil {
+			c.Violation("login-failed", "provider refused the authorization request of chain %s: %v", tenant, err)
+		}
+		send("callback", tenant, cb[strings.Index(cb, "/cb-"):])
+	}
+	seq := []string{"a", "b"}
+	if bFirst {
+		seq = []string{"b", "a"}
+	}
+	for _, tnt := range seq {
+		login(tnt)
+		r := send("request with a session", tnt, "/app")
+		switch {
+		case tnt == "b" && trailingDeny:
+			if r.OK {
+				c.Violation("chain-verdict", "chain b ends in a filter that denies, yet the request was allowed")
+			}
+		case !r.OK:
+			c.Violation("login-failed", "chain %s does not honour the session it just created: %v", tnt, r)
+		}
+	}
+	// and once more in the other order, now that both chains have been used
+	for _, tnt := range []string{seq[1], seq[0]} {
+		send("later request", tnt, "/app/later")
+	}
+	c.NonTrivial()
+	c.FP("chains", order)
+	c.Class("chains:shared-client-id")
+}
+
 func c14SelfTest(t *testing.T, r *sim.Run) {
 	m := &c14Mon{markers: map[string]marker{}}
 	secret := "ZqSECRET+a/b c&d=e"
@@ -283,13 +426,14 @@ func TestC14(t *testing.T) {
 	r := sim.NewRun(t, "C14")
 	defer r.Finish()
 	c14SelfTest(t, r)
-	r.Rule = "the fault-injected histories of C01 with provider behaviours drawn from the C01 (failures), C02 (forged tokens) and C11 (refresh shapes) grammars; every secret is a unique marker (client secret with reserved characters, every access/refresh token, every ID token whole and per segment, every PKCE verifier learnt from the spy store); every CheckResponse is scanned field by field and serialised, for each marker raw, query-escaped, path-escaped, hex, and base64 (std/url, all three alignments). Non-trivial = a response was produced on an error path (fault fired, or the provider was contacted and the answer is not a redirect) while the presented session held secrets; distinct = distinct (config, step kinds and verdicts, fault plan)."
+	r.Rule = "the fault-injected histories of C01 with provider behaviours drawn from the C01 (failures), C02 (forged tokens) and C11 (refresh shapes) grammars; every secret is a unique marker (client secret with reserved characters, every access/refresh token, every ID token whole and per segment, every PKCE verifier learnt from the spy store); every CheckResponse is scanned field by field and serialised, for each marker raw, query-escaped, path-escaped, hex, and base64 (std/url, all three alignments). Part 'chains': two chains behind one assembled filter whose OIDC filters share provider and client id but differ in what they forward, one of them optionally followed by a mock filter that denies; every answer is scanned and every OK may add only what the judging filter is configured to add. Non-trivial = a response was produced on an error path (fault fired, or the provider was contacted and the answer is not a redirect) while the presented session held secrets; distinct = distinct (config, step kinds and verdicts, fault plan)."
 	r.Assumptions = []string{"the ID token and, if configured, the access token in the OK response's upstream headers are the only permitted occurrences", "a planted leak is detected by the scanner in every run (self-test), otherwise the run aborts"}
-	parts := map[string]func(*sim.Case){"histories": c14Prop}
+	parts := map[string]func(*sim.Case){"histories": c14Prop, "chains": c14Chains}
 	if r.Replay != "" {
 		r.ReplayFile(parts)
 		return
 	}
 	r.CheckKnown(parts)
+	r.Exhaustive("chains", 0, c14Chains)
 	r.Rapid("histories", r.N(10000, 150000), c14Prop)
 }
